@@ -5,7 +5,7 @@ import vgen
 PID = "C18"
 RULE = ("names with 0-4 '-', empty parts, 'nb' inside the base, several 'nb', nb followed by sign/garbage, revisions of 1-18 "
         "digits (and overflowing ones), non-ASCII; PkgName::new compared with the model; the matcher's revision is probed through "
-        "'base>=VERnb<k>' / 'base>VERnb<k>' patterns; non-trivial = the name contains '-' or 'nb'")
+        "'base>=VERnb<k>' / 'base>VERnb<k>' patterns; plus EVERY name of length <= 6 (thorough 7) over 'a-nb1'; non-trivial = the name contains '-' or 'nb'")
 FUNCTIONAL = True
 
 
@@ -28,6 +28,11 @@ def generate(rng, tier):
         elif r < 0.7:
             v = v + rng.choice(["nb", "nb+1", "nb-1", "nbx", "nb 1", "nb1nb", "NB2"])
         names.append("-".join(parts + [v]) if rng.random() < 0.9 else "".join(parts) + v)
+    # small scope, exhaustively: every name of length <= 6 (thorough 7) over the characters the split and the revision look at
+    import itertools
+    for L in range(0, (7 if tier == "quick" else 8)):
+        for tup in itertools.product("a-nb1", repeat=L):
+            cases.append(Case("pkgname", [enc("".join(tup))], meta={"n": "".join(tup)}, tag="scope"))
     for nm in names:
         cases.append(Case("pkgname", [enc(nm)], meta={"n": nm}))
         if "\n" not in nm and "\r" not in nm:
